@@ -429,21 +429,38 @@ func c11ProbeKeys(m map[string]map[string]interface{}) string {
 // c11AltTwin drops the aliases of the nested dependencies below the second copy ("twin") of a chart that is declared
 // twice. Only used to name that root cause (the two copies share their nested dependency metadata in Helm).
 func c11AltTwin(c c11Case) c11Case {
-	var cp func(x *c11Chart, underTwin bool) *c11Chart
-	cp = func(x *c11Chart, underTwin bool) *c11Chart {
+	// charts enabled below the FIRST copy: Helm processes a chart's dependency declarations (and renames them to their
+	// aliases) only when it descends into that chart
+	first := c11Expected(c).probes
+	// cp copies x; firstPath is the path of the corresponding chart below the first copy ("" outside a twin),
+	// parentProcessed says whether that chart's parent was descended into below the first copy
+	var cp func(x *c11Chart, path, firstPath string, parentProcessed bool) *c11Chart
+	cp = func(x *c11Chart, path, firstPath string, parentProcessed bool) *c11Chart {
 		n := *x
-		if underTwin && n.Alias != "" {
+		if firstPath != "" && parentProcessed && n.Alias != "" && n.Alias != "twin" {
 			// the first copy's processing renamed the shared declaration to the alias: below the second copy no chart
 			// carries that name any more, so the chart keeps its own name and no rule of the declaration reaches it
 			n.Alias, n.Cond, n.Tags = "", "", nil
 		}
 		n.Deps = nil
 		for _, d := range x.Deps {
-			n.Deps = append(n.Deps, cp(d, underTwin || x.Alias == "twin"))
+			dFirst := ""
+			switch {
+			case firstPath != "":
+				dFirst = firstPath + "/charts/" + d.eff()
+			case d.Alias == "twin":
+				for _, sib := range x.Deps {
+					if sib != d && sib.Name == d.Name {
+						dFirst = path + "/charts/" + sib.eff()
+					}
+				}
+			}
+			_, processed := first[firstPath+"/templates/probe.yaml"]
+			n.Deps = append(n.Deps, cp(d, path+"/charts/"+d.eff(), dFirst, firstPath != "" && processed))
 		}
 		return &n
 	}
-	return c11Case{Root: cp(c.Root, false), User: c.User}
+	return c11Case{Root: cp(c.Root, c.Root.Name, "", false), User: c.User}
 }
 
 const c11TwinSig = "C11:nested-alias-not-applied-below-the-second-copy-of-a-chart-declared-twice"
